@@ -10,7 +10,7 @@ CMP = ['axiom validation', 'as_primitive', 'cmp', 'has_nan', 'sort']
 AP_CALLEES = [('C19', ['_wrapped', 'wrapped.positional']), ('C04', ['dt']), ('C18', ['wrapper.__call__'])]
 DEPENDS = {
     'C01': [('C19', LISTS)],
-    'C02': [('C07', CMP), ('C01', ['__getitem__.tuple', '__getitem__.column', '__iter__', '__len__'])] + AP_CALLEES,
+    'C02': [('C07', CMP), ('C01', ['__getitem__.tuple', '__getitem__.column', '__getitem__.ints', 'constructor.rows', '__iter__', '__len__'])] + AP_CALLEES,
     'C03': [('C19', ['as_list', '_wrapped', '_item_by'])],
     'C04': [('C19', ['as_list'])],
     'C05': [('C04', ['_ymd', 'dt'])],
@@ -18,7 +18,8 @@ DEPENDS = {
     'C07': [('C19', ['as_list', '_wrapped', 'wrapped.positional']), ('C04', ['dt']), ('C18', ['wrapper.__call__']), ('C01', ['__len__', '__getitem__.tuple', '__getitem__.column', 'constructor'])],
     'C08': [('C19', ['as_list'])],
     'C10': [('C04', ['dt']), ('C09', ['dt_bump'])],
-    'C11': [('C07', CMP), ('C01', ['__getitem__.tuple', '__getitem__.column', 'constructor', 'dict_concat', '__iter__', '__len__'])] + AP_CALLEES,
+    'C11': [('C07', CMP), ('C01', ['__getitem__.tuple', '__getitem__.column', 'constructor', 'dict_concat', '__iter__', '__len__', 'get']), ('C19', ['as_list', 'lens', '_wrapped', 'wrapped.positional']),
+            ('C04', ['dt']), ('C18', ['wrapper.__call__'])],
     'C12': [('C19', ['as_list'])],
     'C13': [('C19', LISTS)],
     'C15': [('C14', ['axiom validation', 'eq', 'in_'])],
